@@ -77,7 +77,7 @@ def attr_design(a, name, tprefix, types):
         if leafval:
             k["val"] = leafval
         att["type"] = {"kind": "map", "key": k, "elem": {"kind": "int"}}
-    elif nest == "mapval":
+    elif nest in ("mapval", "mapparams"):
         e = dict(prim)
         if leafval:
             e["val"] = leafval
@@ -250,7 +250,7 @@ def concrete(a, v):
         return [filler(a)] * (cn - 1) + [leaf] if cn >= 1 else []
     if nest == "mapkey":
         return {"$map": {keystr(leaf): 7}} if cn >= 1 else {"$map": {}}
-    if nest == "mapval":
+    if nest in ("mapval", "mapparams"):
         m = {}
         for i in range(cn - 1):
             m["k%d" % (i + 1)] = filler(a)
@@ -376,6 +376,8 @@ def method_design(idx, shape, types):
         pattrs.append(attr_design(a, n, "M%dA%d" % (idx, i + 1), types))
         if a["loc"] == "path":
             path += "/{" + n + "}"
+        elif a["loc"] == "query" and a["nest"] == "mapparams":
+            http["mapParams"] = n           # MapParams("a1"): the entries of a1 are the query string
         elif a["loc"] == "query":
             http["params"][n] = ELEM["query"](n)
         elif a["loc"] == "header":
@@ -490,7 +492,7 @@ class Pipeline:
         self.failed = {}      # design index -> (stage, detail)
 
     def _gen_one(self, i, design, cmds):
-        d = os.path.join(self.root, "d%d" % i)
+        d = os.path.join(self.root, "d%s" % i)
         os.makedirs(d, exist_ok=True)
         dj = os.path.join(d, "design.json")
         json.dump(design, open(dj, "w"))
@@ -552,6 +554,8 @@ class Pipeline:
         their design (recorded in self.bad_methods) and the design is generated again."""
         self.bad_methods = {}     # (design index, method name) -> first diagnostic
         self.generate(designs, cmds)
+        if rounds != 0:       # (whole-design programs are judged as a whole)
+            self._isolate_stage_failures(designs, cmds)
         todo = [i for i in range(len(designs)) if i not in self.failed]
         if rounds == 0:   # whole-design programs: no method isolation, a design that does not compile just fails
             with cf.ThreadPoolExecutor(max_workers=8) as ex:
@@ -598,6 +602,73 @@ class Pipeline:
                 if i not in self.failed:
                     self.failed[i] = ("compile", "error", "still failing after %d rounds" % rounds)
         return self.bad_methods
+
+    def _isolate_stage_failures(self, designs, cmds):
+        """A design that evaluation accepted and a generator then refused (error or panic) would take every method packed
+        with the culprit down with it: find the methods responsible by bisection (every trial is a real genhost run on a
+        sub-design), set them aside in self.bad_methods like the uncompilable ones and generate the rest again."""
+        stages = cmds.split(",")
+        cand = [i for i, f in sorted(self.failed.items()) if f[0] in stages and len(designs[i]["services"]) == 1
+                and len(designs[i]["services"][0]["methods"]) > 1]
+        if not cand:
+            return
+
+        def isolate(i):
+            d = designs[i]
+            methods = d["services"][0]["methods"]
+            trial, culprits = [0], {}
+
+            def failure(ms):
+                trial[0] += 1
+                sub = json.loads(json.dumps(d))
+                sub["services"][0]["methods"] = ms
+                used = json.dumps(ms)
+                sub["types"] = [t for t in d.get("types", []) if '"ref": "%s"' % t["name"] in used]
+                tag = "%d_t%d" % (i, trial[0])
+                _, evs, _ = self._gen_one(tag, sub, cmds)
+                shutil.rmtree(os.path.join(self.root, "d" + tag), ignore_errors=True)
+                last = evs[-1] if evs else {"ev": "genhost", "outcome": "nothing"}
+                if evs and last["outcome"] == "ok" and last["ev"] in stages:
+                    return None
+                return "%s %s: %s" % (last["ev"], last.get("outcome"), str(last.get("detail") or last.get("errors"))[:600])
+
+            def rec(ms):
+                det = failure(ms)
+                if det is None:
+                    return
+                if len(ms) == 1:
+                    culprits[ms[0]["name"]] = det
+                    return
+                rec(ms[:len(ms) // 2])
+                rec(ms[len(ms) // 2:])
+            rec(methods[:len(methods) // 2])
+            rec(methods[len(methods) // 2:])
+            return i, culprits
+        with cf.ThreadPoolExecutor(max_workers=8) as ex:
+            found = list(ex.map(isolate, cand))
+        redo = []
+        for i, culprits in found:
+            if not culprits:        # the failure needs several methods together: the design stays unusable
+                continue
+            for mname, det in culprits.items():
+                self.bad_methods[(i, mname)] = det
+            svc = designs[i]["services"][0]
+            svc["methods"] = [m for m in svc["methods"] if m["name"] not in culprits]
+            used = json.dumps(designs[i]["services"])
+            designs[i]["types"] = [t for t in designs[i].get("types", []) if '"ref": "%s"' % t["name"] in used]
+            shutil.rmtree(os.path.join(self.root, "d%d" % i), ignore_errors=True)
+            del self.failed[i]
+            self.events.pop(i, None)
+            if svc["methods"]:
+                redo.append(i)
+            else:
+                self.failed[i] = ("compile", "error", "every method refused by a generator")
+        with cf.ThreadPoolExecutor(max_workers=16) as ex:
+            for i, evs, _ in ex.map(lambda i: self._gen_one(i, designs[i], cmds), redo):
+                self.events[i] = evs
+                last = evs[-1] if evs else {"ev": "genhost", "outcome": "nothing"}
+                if not evs or last["outcome"] != "ok" or last["ev"] not in stages:
+                    self.failed[i] = (last["ev"], last.get("outcome"), last.get("detail") or last.get("errors"))
 
     def _glue_one(self, i, services):
         d = os.path.join(self.root, "d%d" % i)
@@ -667,14 +738,16 @@ def body_keys(body):
 
 
 def observed_where(names_locs, wire, path_route=None):
-    """For each attribute name: the set of wire locations that carry its element."""
+    """For each attribute name: the set of wire locations that carry its element.  names_locs: (name, location[, shape])."""
     out = []
     q = wire.get("query") or {}
     h = {k.lower(): v for k, v in (wire.get("headers") or {}).items()}
     c = wire.get("cookies") or {}
     bk = body_keys(wire.get("body"))
-    for n, loc in names_locs:
+    for n, loc, *rest in names_locs:
         s = set()
+        if rest and rest[0]["nest"] == "mapparams" and q:     # MapParams("a1"): every key of the query string is an entry of a1
+            s.add("query")                                    # (the envelope never puts another query parameter next to it)
         if ELEM["query"](n) in q or any(k.startswith(ELEM["query"](n) + "[") for k in q):     # qa1=.. / qa1[key]=..
             s.add("query")
         if ELEM["header"](n).lower() in h:
